@@ -13,11 +13,14 @@ use std::collections::{BTreeMap, HashSet, VecDeque};
 use std::panic::{AssertUnwindSafe, catch_unwind};
 use std::path::Path;
 
-pub const KINDS: [&str; 18] = [
+pub const KINDS: [&str; 19] = [
     "fn-added", "fn-removed", "sig-changed", "struct-field-added", "struct-field-added-before", "struct-field-retyped", "enum-variant-added", "enum-payload-changed",
     "trait-method-added", "impl-added", "impl-removed", "type-renamed", "generic-param-added", "bound-added", "bound-removed", "bound-changed",
     // two inherent impls for two instances of one generic struct, each with a bounded method of one name
     "method-bound-changed-first-impl", "method-bound-changed-second-impl",
+    // the last of three variants removed, and package B (where it has dependencies) matches on that variant of theirs:
+    // a stale core of B then names a variant that is gone, and B cannot be rebuilt until its source follows
+    "enum-variant-removed-used-by-b",
 ];
 pub const GRAPHS: [&str; 5] = ["chain", "diamond", "fan", "triangle", "triangle-rev"];
 
@@ -54,7 +57,9 @@ fn lib_source(l: &str, deps: &[&str], variant: u8, kind: &str, indirect: bool) -
     };
     let gparam = if iface && kind == "generic-param-added" { "[T]" } else { "" };
     s.push_str(&format!("struct {}{} {{ {} }}\n", sname, gparam, fields));
-    let variants = if iface && kind == "enum-variant-added" {
+    let variants = if kind == "enum-variant-removed-used-by-b" {
+        if iface { format!("X{}, Y{}(int32)", l, l) } else { format!("X{}, Y{}(int32), Z{}", l, l, l) }
+    } else if iface && kind == "enum-variant-added" {
         format!("X{}, Y{}(int32), Z{}", l, l, l)
     } else if iface && kind == "enum-payload-changed" {
         format!("X{}, Y{}(bool)", l, l)
@@ -119,6 +124,11 @@ fn lib_source(l: &str, deps: &[&str], variant: u8, kind: &str, indirect: bool) -
     if indirect {
         for d in deps {
             s.push_str(&format!("fn get{d}() -> {d}::S{d} {{ {d}::new{d}() }}\n", d = d));
+        }
+    }
+    if kind == "enum-variant-removed-used-by-b" && l == "B" {
+        for d in deps {
+            s.push_str(&format!("fn last{d}(e: {d}::E{d}) -> int32 {{ match e {{ {d}::E{d}::Z{d} => 3, _ => 0 }} }}\nfn made{d}() -> int32 {{ last{d}({d}::E{d}::Z{d}) }}\n", d = d));
         }
     }
     let mut body = format!("x + {}", k);
@@ -280,13 +290,17 @@ impl Family for Staleness {
         900
     }
     fn rule(&self) -> &'static str {
-        "graphs {chain Main->A->B, diamond Main->{A,B}->C, fan Main->{A,B}, triangle Main->{A,B} with B->A, and with A->B} x 18 kinds of interface-changing edit (fn added/removed/signature changed, struct field added after / before the others / retyped, enum variant added/payload changed, trait method added, impl added/removed, type renamed, generic parameter added, trait bound of a generic function added/removed/changed, bound of a method changed in the first / second of two inherent impls for two instances of one generic struct that give the method one name); each library has source variants {v0, body-only edit, interface-changing edit}; actions = edit(pkg,variant), check(pkg), build(pkg), tamper(pkg) (overwrite the dependency hashes at the top of a stale .core file with the current ones, as a user pasting the hash from the link error would), link; breadth-first search over all histories to depth 5 (quick) / 7 (thorough) with states deduplicated by (source variants, artifact file contents, the model's versions); every transition runs the real functions on real files. Reference model: symbolic interface versions (pkg, interface variant, versions of deps at build time). Oracle in every state: the dependency hashes a built/checked package records are those of the interface files it was built against; build/check succeed iff the model says the dependencies' interfaces exist; link succeeds iff every core exists and every recorded dependency version equals the version embedded in that dependency's core; a successful link prints the value denoted by the sources that were built; body-only edits leave the interface bytes unchanged and interface edits change the hash; crash points of a write of A's .interface / .core (every prefix on a grid of all cut points in the first and last 256 bytes and every 61st between; the first k bytes followed by the rest of the artifact of another version): refused, or exactly one of the two complete versions; chain and diamond x 4 kinds also with a Main that reads a field of a struct of a package it does not import, handed on by one it imports (refused by the type checker today; whenever it is built, the interface file of the indirect package is a version Main was built against and must be the linked one). non-trivial = states in which some package is stale; distinct = distinct states"
+        "graphs {chain Main->A->B, diamond Main->{A,B}->C, fan Main->{A,B}, triangle Main->{A,B} with B->A, and with A->B} x 19 kinds of interface-changing edit (fn added/removed/signature changed, struct field added after / before the others / retyped, enum variant added/payload changed/removed while package B matches on it (B then cannot be rebuilt and its stale core names a variant that is gone), trait method added, impl added/removed, type renamed, generic parameter added, trait bound of a generic function added/removed/changed, bound of a method changed in the first / second of two inherent impls for two instances of one generic struct that give the method one name); each library has source variants {v0, body-only edit, interface-changing edit}; actions = edit(pkg,variant), check(pkg), build(pkg), tamper(pkg) (overwrite the dependency hashes at the top of a stale .core file with the current ones, as a user pasting the hash from the link error would), link; breadth-first search over all histories to depth 5 (quick) / 7 (thorough) with states deduplicated by (source variants, artifact file contents, the model's versions); every transition runs the real functions on real files. Reference model: symbolic interface versions (pkg, interface variant, versions of deps at build time). Oracle in every state: the dependency hashes a built/checked package records are those of the interface files it was built against; build/check succeed iff the model says the dependencies' interfaces exist; link succeeds iff every core exists and every recorded dependency version equals the version embedded in that dependency's core; a successful link prints the value denoted by the sources that were built; body-only edits leave the interface bytes unchanged and interface edits change the hash; crash points of a write of A's .interface / .core (every prefix on a grid of all cut points in the first and last 256 bytes and every 61st between; the first k bytes followed by the rest of the artifact of another version): refused, or exactly one of the two complete versions; chain and diamond x 4 kinds also with a Main that reads a field of a struct of a package it does not import, handed on by one it imports (refused by the type checker today; whenever it is built, the interface file of the indirect package is a version Main was built against and must be the linked one). non-trivial = states in which some package is stale; distinct = distinct states"
     }
     fn cases(&self, tier: Tier) -> Box<dyn Iterator<Item = Value> + '_> {
         let mut v = Vec::new();
         for g in GRAPHS {
             for k in KINDS {
-                if tier == Tier::Quick && g != "chain" && !matches!(k, "fn-added" | "struct-field-retyped" | "impl-removed") {
+                // package B has no dependencies in the chain and in the reversed triangle: nothing there names the removed variant
+                if k == "enum-variant-removed-used-by-b" && !matches!(g, "diamond" | "triangle") {
+                    continue;
+                }
+                if tier == Tier::Quick && g != "chain" && !matches!(k, "fn-added" | "struct-field-retyped" | "impl-removed" | "enum-variant-removed-used-by-b") {
                     continue;
                 }
                 v.push(json!({"kind": "history", "graph": g, "edit": k}));
@@ -359,6 +373,10 @@ impl Family for Staleness {
         let mut iface_v0: BTreeMap<usize, String> = BTreeMap::new();
         let mut push = |rep: &mut Report, class: &str, detail: String, hist: &Vec<String>| {
             if reported.insert(class.to_string()) {
+                // a panic while building / linking artifacts the compiler wrote itself is a crash as well
+                if class.ends_with(".panic") {
+                    rep.findings.push(Finding { property: "C04", class: class.to_string(), site: site.clone(), detail: detail.clone(), replay: json!({"kind": "history", "graph": gname, "edit": kind, "history": hist, "detail": detail}) });
+                }
                 rep.findings.push(Finding {
                     property: "C15",
                     class: class.to_string(),
@@ -416,7 +434,16 @@ impl Family for Staleness {
                         }
                         let iface_variant = if st.variants[*i] == 2 { 1 } else { 0 };
                         let self_ver = format!("{}#{}[{}]", pkg.name, iface_variant, dep_vers.iter().map(|(_, v)| v.clone()).collect::<Vec<_>>().join(","));
-                        if is_build {
+                        // B names a variant of its dependencies that their edited interface no longer has
+                        let names_a_removed_variant = w.kind == "enum-variant-removed-used-by-b" && pkg.name == "B" && dep_vers.iter().any(|(_, v)| v.contains("#1"));
+                        if names_a_removed_variant {
+                            let r = catch_unwind(AssertUnwindSafe(|| if is_build { build_package(inputs(&w.root, &pkg, &w.out)).map(|_| ()) } else { check_package(inputs(&w.root, &pkg, &w.out)).map(|_| ()) }));
+                            match r {
+                                Ok(Ok(())) => push(&mut rep, "build.succeeded-naming-a-removed-variant", format!("after {:?}", h2), &h2),
+                                Ok(Err(_)) => rep.tag("dependent-names-a-removed-variant:rejected"),
+                                Err(p) => push(&mut rep, "build.panic", normalise_msg(&crate::oracle::panic_message(p)), &h2),
+                            }
+                        } else if is_build {
                             let r = catch_unwind(AssertUnwindSafe(|| build_package(inputs(&w.root, &pkg, &w.out))));
                             match r {
                                 Ok(Ok(unit)) => {
